@@ -43,14 +43,14 @@ func init() {
 
 func specC16(l *Loaded, tier string, seed int64) (*Spec, error) {
 	jobs := []*Job{
-		{Pkg: "common/bytes", Fn: "VerifC16RoundTrip", Key: "word-roundtrip", Covers: []string{"end"},
+		{Pkg: "common/bytes", Fn: "VerifC16RoundTrip", Key: "word-roundtrip", RawTerms: true, Covers: []string{"end"},
 			Note: "n symbolic int32: I32FromBytes(BytesFromLowBits(n)) == n and byte i == bits 8i..8i+7"},
-		{Pkg: "common/bytes", Fn: "VerifC16Bytes", Key: "bytes-roundtrip", Covers: []string{"end"},
+		{Pkg: "common/bytes", Fn: "VerifC16Bytes", Key: "bytes-roundtrip", RawTerms: true, Covers: []string{"end"},
 			Note: "four symbolic int8: BytesFromLowBits(I32FromBytes(q)) == q and the word is the little-endian composition"},
 	}
 	return &Spec{Jobs: jobs,
-		Rule:   "two harnesses over the real common/bytes functions; every bit loop is executed with its constant trip count and its data-dependent diamonds merged into ite terms, so each assertion is one solver query over all 2^32 inputs",
-		Bounds: map[string]interface{}{"input_bits": 32, "loops": "constant trip counts (8, 16, 32) executed completely", "note": "no bound left open: the solver decides all 2^32 words and all 2^32 byte quadruples; quick and thorough are the same check"},
+		Rule:        "two harnesses over the real common/bytes functions; every bit loop is executed with its constant trip count and its data-dependent diamonds merged into ite terms, so each assertion is one solver query over all 2^32 inputs",
+		Bounds:      map[string]interface{}{"input_bits": 32, "loops": "constant trip counts (8, 16, 32) executed completely", "note": "no bound left open: the solver decides all 2^32 words and all 2^32 byte quadruples; quick and thorough are the same check"},
 		Assumptions: []string{"z3 4.8.12 bit-blasting (qfbv tactic) is sound", "go/ssa build of /repo's working tree is faithful", "gosym's integer/shift/convert semantics (validated by native replay of every counterexample)"},
 	}, nil
 }
